@@ -277,9 +277,11 @@ pub fn ls(cache: &Path) -> impl Iterator<Item = Result<Metadata>> {
                 .into_iter()
                 .filter_map(|se| {
                     if let Some(i) = se.integrity {
+                        // Skip entries whose integrity doesn't parse, like `find` does.
+                        let integrity = i.parse().ok()?;
                         Some(Metadata {
                             key: se.key,
-                            integrity: i.parse().unwrap(),
+                            integrity,
                             time: se.time,
                             size: se.size,
                             metadata: se.metadata,
